@@ -6,6 +6,9 @@ model): Python's strict UTF-8 decoder decides accept/reject and the scalar value
 `punycode` codec gives the expected ACE form (validation of RFC 3492 digit equality, not a proof),
 Python's `surrogatepass` codecs give the expected WTF-8 / UTF-16 and the round trip.
 
+The caller of the codec, uv_getaddrinfo, is run in harness/c18_gai.c with the C library's resolver interposed
+(`uvdriver c18gai`, UvModel/GaiHost.lean, Props/C18Gai.lean): see the section "the caller of the codec" below.
+
 `run_text(ctx)` is called by checks/c18.py; checks/c18t.py is a stand-alone wrapper."""
 import json, hashlib
 from pathlib import Path
